@@ -58,7 +58,8 @@ Section Meta.
 
   (* what a run that continues from a state may configure differently: gaussianSigmas / hillWidth, hillWeight,
      newHillFrequency *)
-  Record params := mkPar { p_sigmas : list T; p_hill_width : T; p_weight : T; p_freq : Z }.
+  Record params := mkPar { p_sigmas : list T; p_hill_width : T; p_weight : T; p_freq : Z;
+                           p_gfreq : Z; p_wt : bool; p_bias_temp : T }.
 
   (* one engine step as seen by the bias *)
   Record step_in := mkIn {
@@ -475,8 +476,8 @@ Section Meta.
 
   (* the configuration of the run that follows an event *)
   Definition with_par (c : cfg) (p : params) : cfg :=
-    mkCfg (c_vars c) (c_geom0 c) (p_sigmas p) (p_weight p) (p_hill_width p) (p_freq p) (c_gfreq c) (c_use_grids c)
-          (c_keep c) (c_wt c) (c_bias_temp c) (c_kb c) (c_step_zero c) (c_eb c) (c_eb_equil c) (c_eb_target c).
+    mkCfg (c_vars c) (c_geom0 c) (p_sigmas p) (p_weight p) (p_hill_width p) (p_freq p) (p_gfreq p) (c_use_grids c)
+          (c_keep c) (p_wt p) (p_bias_temp p) (c_kb c) (c_step_zero c) (c_eb c) (c_eb_equil c) (c_eb_target c).
   Definition next_cfg (c : cfg) (e : event) : cfg := match e with EReconf p => with_par c p | _ => c end.
 
   (* the state is written under the old configuration and read by an instance with the new one (what is read does not
